@@ -29,6 +29,8 @@ pub const ALPHABET: &[&str] = &[
     "osu file format v",
     "osu file format v-3",
     "osu file format v2147483648",
+    "osu file format v-2147483648",
+    "osu file format v-2147483647",
     "osu file format v 7 ",
     "osu file format v14 v9",
     "osu file format vv6",
